@@ -109,3 +109,7 @@ mod tests {
         }
     }
 }
+
+#[cfg(feature = "pendulum_project_ntpd_rs_verif")]
+#[path = "/verif/hooks/statime-wire/common_time_interval.rs"]
+pub mod vh_common_time_interval;
